@@ -7,6 +7,18 @@
 (*   fin ooo bad badcall   all calls returned: increase of the out_of_order  *)
 (*                   counter, whether bad-metrics holds a record for the key *)
 (*                   and the call id inside that record                      *)
+(* "Many names" family (one call per name, several hundred thousand names):  *)
+(* the registers of different names are independent (Ordered!Independent),   *)
+(* so the run is judged on a projection: one block per projected name (every *)
+(* name whose point did not arrive exactly once at the route, a seeded       *)
+(* sample of the others, and the pairs of names known to collide under       *)
+(* common 32-bit hashes), closed by                                          *)
+(*   finp bad badcall    like fin, without the counter (it is process-wide)  *)
+(* and, after all blocks,                                                    *)
+(*   total n fwd ooo     calls made, points that arrived at the route, and   *)
+(*                       the increase of the out_of_order counter, for all   *)
+(*                       names of the run: both must equal what the blocks   *)
+(*                       since the last total explain                        *)
 (* The linearization point (Decide, inside the mutex) is not logged: TLC     *)
 (* searches an order of Decide steps, each between the begin and the end of  *)
 (* its call, under which every result is that of the sequential max-register *)
@@ -16,20 +28,21 @@ EXTENDS Integers, Sequences, FiniteSets, Json, TLC, TLCExt, IOUtils
 
 TLog == ndJsonDeserialize("trace.ndjson")
 
-VARIABLES l, last, pend, res, nrej, rejset
-tvars == <<l, last, pend, res, nrej, rejset>>
+VARIABLES l, last, pend, res, nrej, rejset, totrej
+tvars == <<l, last, pend, res, nrej, rejset, totrej>>
 
 ASSUME TLCSet(1, 0)
 Ev == TLog[l]
 Is(e) == l <= Len(TLog) /\ Ev.ev = e /\ l' = l + 1
 
-TInit == l = 1 /\ last = 0 /\ pend = <<>> /\ res = <<>> /\ nrej = 0 /\ rejset = {}
+TInit == l = 1 /\ last = 0 /\ pend = <<>> /\ res = <<>> /\ nrej = 0 /\ rejset = {} /\ totrej = 0
 
 THist == Is("hist") /\ last' = 0 /\ pend' = <<>> /\ res' = <<>> /\ nrej' = 0 /\ rejset' = {}
+         /\ UNCHANGED totrej
 
 TBegin == /\ Is("begin")
           /\ pend' = (Ev.c :> Ev.ts) @@ pend
-          /\ UNCHANGED <<last, res, nrej, rejset>>
+          /\ UNCHANGED <<last, res, nrej, rejset, totrej>>
 
 \* internal: the critical section of a pending call
 Decide(c) ==
@@ -40,21 +53,35 @@ Decide(c) ==
      /\ nrej' = IF a THEN nrej ELSE nrej + 1
      /\ rejset' = IF a THEN rejset ELSE rejset \cup {c}
   /\ pend' = [x \in (DOMAIN pend) \ {c} |-> pend[x]]
-  /\ UNCHANGED l
+  /\ UNCHANGED <<l, totrej>>
 
 TEnd == /\ Is("end") /\ Ev.c \in DOMAIN res
         /\ Ev.fwd = res[Ev.c]                  \* forwarded iff accepted
         /\ Ev.times = (IF res[Ev.c] THEN 1 ELSE 0)   \* and exactly once
         /\ res' = [x \in (DOMAIN res) \ {Ev.c} |-> res[x]]
-        /\ UNCHANGED <<last, pend, nrej, rejset>>
+        /\ UNCHANGED <<last, pend, nrej, rejset, totrej>>
 
 TFin == /\ Is("fin") /\ pend = <<>> /\ res = <<>>
         /\ Ev.ooo = nrej                       \* every rejection counted, nothing else
         /\ Ev.bad = (nrej > 0)                 \* reported as a bad metric
         /\ (Ev.bad => Ev.badcall \in rejset)
-        /\ UNCHANGED <<last, pend, res, nrej, rejset>>
+        /\ UNCHANGED <<last, pend, res, nrej, rejset, totrej>>
 
-TNext == THist \/ TBegin \/ TEnd \/ TFin \/ \E c \in DOMAIN pend : Decide(c)
+\* a block of the many-names projection ends: its rejections are added to those the whole run must account for
+TFinP == /\ Is("finp") /\ pend = <<>> /\ res = <<>>
+         /\ Ev.bad = (nrej > 0)
+         /\ (Ev.bad => Ev.badcall \in rejset)
+         /\ totrej' = totrej + nrej
+         /\ UNCHANGED <<last, pend, res, nrej, rejset>>
+
+\* the whole many-names run: n calls, fwd points at the route, out_of_order counter + ooo
+TTotal == /\ Is("total") /\ pend = <<>> /\ res = <<>>
+          /\ Ev.ooo = totrej
+          /\ Ev.fwd = Ev.n - totrej
+          /\ totrej' = 0
+          /\ UNCHANGED <<last, pend, res, nrej, rejset>>
+
+TNext == THist \/ TBegin \/ TEnd \/ TFin \/ TFinP \/ TTotal \/ \E c \in DOMAIN pend : Decide(c)
 TSpec == TInit /\ [][TNext]_tvars
 
 HighWater == TLCSet(1, IF l - 1 > TLCGet(1) THEN l - 1 ELSE TLCGet(1))
